@@ -261,3 +261,25 @@ def dwarf_world(rng, arch, nmods=3, nf=6, nprobes=60, policy="may", with_iter=Fa
             s.meta[li] = {"twin": lm}
     s.add("stats C")
     return name + "-" + arch + "-" + policy, s
+
+
+def empty_fde_world(rng, arch, policy="may"):
+    """Modules whose CFI section holds CIEs but not a single FDE, in all three presentations (framehop's own index is
+    then empty: seeded changes C09-2 / C14-2 indexed it unchecked), probed as instruction pointer and return address."""
+    s = Script(arch, policy)
+    for i, pres in enumerate(("hdr", "eh", "debug")):
+        base = 0x10000 + 0x40000 * i
+        s.module_dwarf("M%d" % i, base, base + 0x2000, base, rng.choice([0, 0x400000]), pres, [], rng, n_cies=rng.range(1, 2))
+    s.mem("S", stack_window(rng, 0x7000, 48, 0x11010, holes=False, signbits=0))
+    s.add("new U")
+    for i in range(3):
+        s.add("add U M%d" % i)
+    s.add("newcache C")
+    for i, pres in enumerate(("hdr", "eh", "debug")):
+        base = 0x10000 + 0x40000 * i
+        for a in (base, base + 1, base + 0x1000, base + 0x1fff):
+            for kind in ("ip", "ra"):
+                addr = a if kind == "ip" else a + 1
+                s.add("unwind U C %s %s %s S" % (kind, hx(addr), regs_for(s, rng, arch, a, 0x7000, 48)),
+                      tag="%s:%s:nofde:%s" % (arch, pres, kind))
+    return "nofde-%s-%s" % (arch, policy), s
